@@ -17,6 +17,7 @@ import (
 	"sort"
 	"strings"
 	"testing"
+	"time"
 
 	"github.com/restic/restic/internal/backend"
 	"github.com/restic/restic/internal/backend/local"
@@ -50,6 +51,10 @@ type vHist struct {
 	Cuts               bool // also use non-prefix consistent cuts as crash states
 	Crashes            int
 
+	Yield    int // schedule perturbation of the backends (µs), see SetYield
+	yieldSeq int
+	caseIdx  int
+
 	keys  map[string]string // key file name -> password (primary repository)
 	pwSeq int
 	rpSeq int
@@ -65,6 +70,7 @@ type vhResult struct {
 }
 
 type vhInit struct {
+	Case        int // case index (only used to derive independent PRNG streams)
 	Version     uint
 	Compression repository.CompressionMode
 	Files, Big  int
@@ -72,7 +78,7 @@ type vhInit struct {
 
 // newVHist creates the primary repository and a source directory.
 func newVHist(t testing.TB, rec *kit.Rec, rng *kit.RNG, in vhInit) (*vHist, error) {
-	h := &vHist{t: t, rec: rec, rng: rng, known: map[restic.ID]repokit.Manifest{}, keys: map[string]string{}, CrashDen: 1}
+	h := &vHist{t: t, rec: rec, rng: rng, known: map[restic.ID]repokit.Manifest{}, keys: map[string]string{}, CrashDen: 1, caseIdx: in.Case}
 	h.e = newVEnv(t, rec, vEnvOpts{Mem: true, PackSize: 4, Compression: in.Compression})
 	h.rehook()
 	if err := h.e.Init(in.Version); err != nil {
@@ -119,7 +125,20 @@ func (h *vHist) rehook() {
 // replace puts env on a fresh backend holding st.
 func (h *vHist) replace(env *vEnv, st kit.State) {
 	env.useBackend(kit.NewVBackendFrom(st, env.vbe.Conn, env.vbe.Atomic), true)
+	if h.Yield > 0 {
+		h.yieldSeq++
+		env.vbe.SetYield(h.Yield, h.rec.RNG("vh-yield", h.caseIdx, h.yieldSeq))
+	}
 	h.rehook()
+}
+
+// SetYield enables schedule perturbation (random Gosched / µs sleeps around backend calls) on
+// the current and all future backends of the history, so that concurrent uploads / deletions
+// of one command overlap and non-prefix consistent cuts exist.
+func (h *vHist) SetYield(maxMicros int) {
+	h.Yield = maxMicros
+	h.yieldSeq++
+	h.e.vbe.SetYield(maxMicros, h.rec.RNG("vh-yield", h.caseIdx, h.yieldSeq))
 }
 
 // learn records the manifests of snapshots not seen before (called on completed states).
@@ -190,7 +209,15 @@ func (h *vHist) pickCrash(base kit.State, muts []*kit.Op) (kit.State, string) {
 		st, order := kit.SampleCut(base, muts, size, h.rng)
 		sorted := append([]int(nil), order...)
 		sort.Ints(sorted)
-		return st.WithoutLocks(), fmt.Sprintf("cut %v of %d", sorted, n)
+		isPrefix := true
+		for i, v := range sorted {
+			if v != i {
+				isPrefix = false
+			}
+		}
+		if !isPrefix {
+			return st.WithoutLocks(), fmt.Sprintf("cut %v of %d", sorted, n)
+		}
 	}
 	k := h.rng.Range(0, n-1)
 	d := fmt.Sprintf("prefix %d/%d", k, n)
@@ -203,6 +230,8 @@ func (h *vHist) pickCrash(base kit.State, muts []*kit.Op) (kit.State, string) {
 // run executes one step on env (journaled) and possibly crashes it.
 func (h *vHist) run(env *vEnv, name, desc string, crashable bool, fn func() (vOut, error)) *vhResult {
 	r := &vhResult{Name: name, Desc: desc}
+	t0 := time.Now()
+	defer func() { h.t.Logf("step %-16s %6.2fs muts=%d files=%d %s", name, time.Since(t0).Seconds(), len(r.Muts), len(env.vbe.Snapshot()), desc) }()
 	r.Base, r.Muts, r.Err = env.vJournaled(func() error {
 		var err error
 		r.Out, err = fn()
@@ -281,6 +310,8 @@ func (h *vHist) Backup(env *vEnv, crashable bool) (restic.ID, *vhResult) {
 // from the current state, the result is the union of what they wrote. It yields blobs that
 // are stored (and indexed) twice.
 func (h *vHist) DupBackup() error {
+	t0 := time.Now()
+	defer func() { h.t.Logf("step %-16s %6.2fs", "twin-backup", time.Since(t0).Seconds()) }()
 	st := h.e.vbe.Snapshot().WithoutLocks()
 	merged := st.Clone()
 	for i := 0; i < 2; i++ {
@@ -370,8 +401,9 @@ func (f vhForget) String() string {
 	return d
 }
 
-// DrawForget picks snapshots to forget (never all of them).
-func (h *vHist) DrawForget() (vhForget, bool) {
+// DrawForget picks snapshots to forget (never all of them). With mustRemove the selection is
+// guaranteed to remove at least one snapshot.
+func (h *vHist) DrawForget(mustRemove bool) (vhForget, bool) {
 	ids := vhSnapshots(h.e)
 	if len(ids) < 2 {
 		return vhForget{}, false
@@ -387,6 +419,9 @@ func (h *vHist) DrawForget() (vhForget, bool) {
 	} else {
 		f.KeepLast = h.rng.Range(1, 2)
 		f.NoGroup = h.rng.Bool()
+		if mustRemove {
+			f.KeepLast, f.NoGroup = 1, true
+		}
 	}
 	return f, true
 }
